@@ -30,7 +30,10 @@ class TV:
 
 
 class StorageInterp:
-    def __init__(self, arg_names: List[str], callable_args: Set[str], mutating_helpers: Dict[str, Set[int]], saved_names: Optional[Set[str]] = None):
+    def __init__(self, arg_names: List[str], callable_args: Set[str], mutating_helpers: Dict[str, Set[int]], saved_names: Optional[Set[str]] = None,
+                 self_name: Optional[str] = None):
+        self.self_name = self_name  # when set, `self.<attr>` reads are tensors owned by the object ("state")
+        self.state_sids: Dict[str, int] = {}
         self.latest: Dict[int, int] = {}
         self.prov: Dict[int, str] = {}
         self.env: Dict[str, Optional[TV]] = {}
@@ -65,6 +68,14 @@ class StorageInterp:
     def mutate(self, v: TV, via: str, node: ast.AST) -> TV:
         if self.prov.get(v.sid) == "arg":
             self.problems.append("in-place update `%s` (line %d) writes to the storage of an input of the Function (autograd forbids it without mark_dirty; the caller's tensor is changed)" % (src(node)[:60], getattr(node, "lineno", 0)))
+        if self.prov.get(v.sid) == "state":
+            t = src(node)
+            dict_store = False
+            tg = node.targets[0] if isinstance(node, ast.Assign) else (node.target if isinstance(node, ast.AugAssign) else None)
+            if isinstance(tg, ast.Subscript) and not any(isinstance(x, (ast.Slice, ast.Tuple)) or (isinstance(x, ast.Constant) and x.value is Ellipsis) for x in ast.walk(tg.slice)):
+                dict_store = True  # `self._d[key] = v`: a mapping/list slot, not a tensor slice
+            if not dict_store and ".data" not in t and not any(m in t for m in (".fill_(", ".requires_grad_(", ".zero_(")):
+                self.problems.append("in-place update `%s` (line %d) overwrites a tensor owned by the object (a parameter, buffer, cache or training data): later calls see the modified value" % (t[:60], getattr(node, "lineno", 0)))
         if self.prov.get(v.sid) == "saved":
             self.problems.append("in-place update `%s` (line %d) writes to a tensor saved for backward" % (src(node)[:60], getattr(node, "lineno", 0)))
         self.latest[v.sid] += 1
@@ -81,6 +92,13 @@ class StorageInterp:
             if e.attr in META_ATTRS:
                 self.ev(e.value, content=False)
                 return None
+            if self.self_name is not None and isinstance(e.value, ast.Name) and e.value.id == self.self_name:
+                key = e.attr
+                if key not in self.state_sids:
+                    tv = self.fresh("state")
+                    self.state_sids[key] = tv.sid
+                sid = self.state_sids[key]
+                return TV(sid, self.latest[sid], "state")
             b = self.ev(e.value, content)
             if b is not None and e.attr in VIEW_ATTRS:
                 return TV(b.sid, self.latest[b.sid], b.prov)
@@ -169,6 +187,8 @@ class StorageInterp:
                     if root is not None:
                         self.env[root] = nv
                     return nv
+                if m == "contiguous" and isinstance(f.value, ast.Call) and isinstance(f.value.func, ast.Attribute) and f.value.func.attr in ("expand", "expand_as", "transpose", "permute", "repeat"):
+                    return self.fresh()  # a non-contiguous view is materialised by contiguous()
                 if m in VIEW_METHODS:
                     return TV(recv.sid, self.latest[recv.sid], recv.prov)
                 return self.fresh()
@@ -227,9 +247,13 @@ class StorageInterp:
             bv = self.ev(base, content=False)
             self.ev_any(target.slice)
             if bv is not None:
-                nv = self.mutate(bv, src(base), node)
-                if isinstance(base, ast.Name):
-                    self.env[base.id] = nv
+                # the name through which the slice assignment is made: x[...][...] = v  /  x.T[...] = v  ->  x
+                root = base
+                while isinstance(root, ast.Subscript) or (isinstance(root, ast.Attribute) and root.attr in VIEW_ATTRS):
+                    root = root.value
+                nv = self.mutate(bv, src(root)[:40], node)
+                if isinstance(root, ast.Name):
+                    self.env[root.id] = nv
         elif isinstance(target, (ast.Tuple, ast.List)):
             for t in target.elts:
                 self.assign(t, self.fresh() if value is None else TV(value.sid, value.ver, value.prov), node)
@@ -243,6 +267,13 @@ def _inplace_root(e: ast.AST) -> Optional[str]:
     if isinstance(e, ast.Name):
         return e.id
     if isinstance(e, ast.Call) and isinstance(e.func, ast.Attribute) and e.func.attr.endswith("_") and not e.func.attr.endswith("__") and e.func.attr not in NON_MUTATING_UNDERSCORE:
+        return _inplace_root(e.func.value)
+    # updates made through a view of x (x[...], x.T, x.transpose(..), x.diagonal(..)) are updates of x
+    if isinstance(e, ast.Subscript):
+        return _inplace_root(e.value)
+    if isinstance(e, ast.Attribute) and e.attr in VIEW_ATTRS:
+        return _inplace_root(e.value)
+    if isinstance(e, ast.Call) and isinstance(e.func, ast.Attribute) and e.func.attr in VIEW_METHODS:
         return _inplace_root(e.func.value)
     return None
 
